@@ -111,6 +111,12 @@ Proof.
   exact (accepted_line_ends_at_first_crlf native_call env (S (length i)) is_tail_def env_line_ok FUEL _ 0%nat response_stail i a after r v u Hs Hb H).
 Qed.
 
+Theorem accepted_response_ends_with_crlf_lemma : forall i r v u, parse i = ROk r v u -> exists w0, i = w0 ++ 13 :: 10 :: r.
+Proof.
+  intros i r v u H. unfold parse in H.
+  exact (run_ends_crlf native_call env (S (length i)) is_tail_def env_line_ok FUEL _ 0%nat response_stail i r v u H).
+Qed.
+
 (* non-vacuity: an accepted line followed by another one; the theorem's premises hold and the parse is an accept *)
 Example ends_at_first_crlf_example :
   let i := bs "* 1 EXISTS" ++ [13; 10] ++ bs "* 2 EXISTS" ++ [13; 10] in
